@@ -292,7 +292,11 @@ func runCase(c *Case, d *driver, opts runOpts) (res caseResult) {
 					break
 				}
 				tags := "?"
-				if !compare(fmt.Sprintf("adv %d", im.consumed()), &tags) {
+				cmd := fmt.Sprintf("adv %d", im.consumed())
+				if len(im.be.script) == 0 && im.vt.Buffered() == 0 {
+					cmd += " eof"
+				}
+				if !compare(cmd, &tags) {
 					break
 				}
 			}
